@@ -394,6 +394,8 @@ def doBuild (ops : List String) : String :=
     | ["P", ty] => let (ok, b) := b.registerPrefix (TokType.ofNat ty.toNat!); (b, outs ++ [if ok then "ok" else "err"])
     | ["I", ty, prec] => let (ok, b) := b.registerInfix (TokType.ofNat ty.toNat!) prec.toNat!; (b, outs ++ [if ok then "ok" else "err"])
     | ["S", ty] => let (ok, b) := b.registerPostfix (TokType.ofNat ty.toNat!); (b, outs ++ [if ok then "ok" else "err"])
+    | ["M", "t", v] => ({ b with tolerant := v == "1" }, outs ++ ["ok"])
+    | ["M", "s", v] => ({ b with smart := v == "1" }, outs ++ ["ok"])
     | ["B", src] =>
       let toks := (lexAll (unhex src)).map b.retag
       let r := parseProgram b.config toks
